@@ -9,7 +9,9 @@ position.  The form is invariant under:
     the positive test with swapped branches, `elif` chains;
   * conditional expressions vs if/else statements (an `a if c else b` inside a statement is lifted
     to a branch of the tree);
-  * keyword-argument order in calls, docstrings, comments, `pass`.
+  * keyword-argument order in calls, a literal dict splatted with `**` vs keyword arguments,
+    docstrings, comments, `pass`;
+  * private helpers (inlined, see `Scope`) and simple module-level constants (by value).
 
 A tree is one of
   ("IF", test, then_tree, else_tree) | ("RET", expr | None) | ("RAISE", exception name) |
@@ -49,7 +51,20 @@ class _Subst(ast.NodeTransformer):
 
     def visit_Call(self, n):
         n = self.generic_visit(n)
-        n.keywords = sorted(n.keywords, key=lambda k: k.arg or "")
+        # f(**{"a": x, "b": y}) / f(**dict(a=x, b=y))  ==  f(a=x, b=y)   (after substitution a splatted
+        # local bound to a literal dict is such a literal)
+        kws = []
+        for k in n.keywords:
+            v = k.value
+            if k.arg is None and isinstance(v, ast.Dict) and v.keys and all(
+                    isinstance(x, ast.Constant) and isinstance(x.value, str) for x in v.keys):
+                kws += [ast.keyword(arg=x.value, value=y) for x, y in zip(v.keys, v.values)]
+            elif k.arg is None and isinstance(v, ast.Call) and _u(v.func) == "dict" and not v.args \
+                    and all(x.arg for x in v.keywords):
+                kws += list(v.keywords)
+            else:
+                kws.append(k)
+        n.keywords = sorted(kws, key=lambda k: k.arg or "")
         return n
 
 
@@ -115,7 +130,18 @@ class Scope:
                     if decos <= {"staticmethod"}:
                         self.methods[n.name] = (n, "staticmethod" in decos)
         self.functions = {}
+        self.consts = {}
         if mod is not None:
+            # simple module-level constants (bound once, to a literal / a tuple of names) stand for
+            # their value
+            counts = {}
+            for n in ast.walk(mod):
+                if isinstance(n, ast.Name) and isinstance(n.ctx, (ast.Store, ast.Del)):
+                    counts[n.id] = counts.get(n.id, 0) + 1
+            for n in mod.body:
+                if isinstance(n, ast.Assign) and len(n.targets) == 1 and isinstance(n.targets[0], ast.Name) \
+                        and counts.get(n.targets[0].id) == 1 and self._simple(n.value):
+                    self.consts[n.targets[0].id] = n.value
             for n in mod.body:
                 if isinstance(n, ast.FunctionDef) and not n.decorator_list:
                     self.functions[n.name] = n
@@ -138,6 +164,29 @@ class Scope:
                                         self.functions[a.asname or a.name] = defs[a.name]
                                 break
         self.keep = set(keep)
+
+    @staticmethod
+    def _simple(e):
+        if isinstance(e, ast.Constant):
+            return True
+        if isinstance(e, (ast.Tuple, ast.List, ast.Set)):
+            return all(Scope._simple(x) for x in e.elts)
+        if isinstance(e, ast.Name):
+            return True
+        if isinstance(e, ast.Attribute):
+            return Scope._simple(e.value)
+        if isinstance(e, ast.UnaryOp) and isinstance(e.op, ast.USub):
+            return Scope._simple(e.operand)
+        return False
+
+    def consts_for(self, fn):
+        """the module constants visible in fn (not shadowed by a parameter)"""
+        a = fn.args
+        params = {x.arg for x in a.args + a.kwonlyargs + a.posonlyargs}
+        for extra in (a.vararg, a.kwarg):
+            if extra is not None:
+                params.add(extra.arg)
+        return {k: v for k, v in self.consts.items() if k not in params}
 
     @staticmethod
     def private(name):
@@ -242,6 +291,7 @@ def tree(stmts, env=None, scope=None, depth=0, presub=False):
                 fn, params = scope.resolve(h)
                 cenv = _bind(h, fn, params)
                 if cenv is not None:
+                    cenv = dict(scope.consts_for(fn), **cenv)
                     ctree = tree(body_of(fn), cenv, scope, depth + 1)
 
                     def k(v, st=st, field=field, e_s=e_s, h=h):
@@ -293,7 +343,7 @@ def tree(stmts, env=None, scope=None, depth=0, presub=False):
 
 
 def of(fn, scope=None):
-    return tree(body_of(fn), None, scope)
+    return tree(body_of(fn), scope.consts_for(fn) if scope is not None else None, scope)
 
 
 def show(t):
